@@ -127,8 +127,11 @@ def run(tier):
         with B2.Seams() as seams:
             orc = Oracle(wd)
             rcpts = G.Recipients(orc, r, 1)
-            kindsets = [["cust", "update"]] if tier == "quick" else [["cust", "update"], ["update"], ["ecc", "cust"], ["cust", "unknown"]]
-            for kinds in kindsets:
+            # (block kinds, decryptors used): two decryptable blocks read with both; an ECC block read with exactly ONE ECC decryptor
+            kindsets = [(["cust", "update"], None), (["ecc"], None)] if tier == "quick" else \
+                [(["cust", "update"], None), (["ecc"], None), (["update"], None), (["ecc", "cust"], None), (["cust", "unknown"], None),
+                 (["update", "ecc", "cust"], ["ecc"]), (["update", "ecc", "cust"], ["update"])]
+            for kinds, only in kindsets:
                 plan = G.Plan(r, rcpts, kinds, key_cls="z1", explicit_key=True)
                 cont = L.Bf3File({}, [L.mk_comp({7: b"x"}, bytes([5, 4, 3, 2, 1, 0, 0]), 7)])
                 f, text, _ = C.write_plan(rec, seams, orc, r, plan, content=cont)
@@ -138,10 +141,20 @@ def run(tier):
                     s = io.StringIO()
                     L.Bf3File.write_bf3_format(s, {}, binary)
                     text = s.getvalue()
-                decs = list(plan.decs.values())
-                B2.rec_bec2_read(rec, text, decs, plan.ecc_privs, orc, True, auth=auth, label="authentic")
-                for label, t in variants_of(binary, text, r, full=(tier == "thorough")):
-                    B2.rec_bec2_read(rec, t, decs, plan.ecc_privs, orc, True, auth=auth, label=label)
+                decs = [d for k, d in plan.decs.items() if only is None or k in only]
+                ev0 = B2.rec_bec2_read(rec, text, decs, plan.ecc_privs, orc, True, auth=auth, label="authentic")
+                hdr_len = len(binary) - len(f.bf3file.to_binary(0, f.session_key))
+                vs = variants_of(binary, text, r, full=(tier == "thorough"))
+                # every byte of the header (signature, tags, lengths, selector, wrapped keys) with two replacement values
+                for p in range(hdr_len):
+                    for v in (binary[p] ^ (1 << (p % 8)), (binary[p] + 1) & 0xFF):
+                        b = bytearray(binary)
+                        b[p] = v
+                        s2 = io.StringIO()
+                        L.Bf3File.write_bf3_format(s2, {}, bytes(b))
+                        vs.append(("hdrbyte%d=%02x" % (p, v), s2.getvalue()))
+                for label, t in vs:
+                    B2.rec_bec2_read(rec, t, decs, plan.ecc_privs, orc, True, auth=auth, label=label, auth_blocks=ev0["blocks"])
         # binding self-test: an accepted event whose content differs from the authentic one must be flagged
         oks = [e for e in rec.events if e["op"] == "bf3.read" and e["kind"] == "ok" and e["comps"]]
         ok_ev = oks[0] if oks else dict(rec.events[0], kind="ok", comps=[{"desc": [], "blob": [1], "alen": 1, "enc": False}],
@@ -160,7 +173,7 @@ def run(tier):
                 continue
             e = byid[tid]
             slim = {k: (v if not isinstance(v, list) or len(v) < 600 else v[:600]) for k, v in e.items()}
-            if x[2] == "silent-accept" or x[2].startswith("content") or x[2].startswith("session-key-differs"):
+            if x[2].startswith("silent-accept") or x[2].startswith("content") or x[2].startswith("session-key-differs"):
                 rep.violation("C04:silent-accept:%s" % e.get("label", "?").rstrip("0123456789=abcdef"), "damaged file (%s) accepted with different content" % e.get("label"), slim)
             elif x[2].startswith("accepted-"):
                 # accepted although the specification's parser rejects the damaged bytes, content equal to the authentic one:
